@@ -1,0 +1,46 @@
+//go:build verif
+
+package scte35
+
+// VerifStateDump is a snapshot of the private bookkeeping of a State created by NewState.
+// Verification hook: compiled only with the "verif" build tag, never part of the normal build.
+type VerifStateDump struct {
+	// Open is the internal open list (including a program breakaway kept for matching).
+	Open []SegmentationDescriptor
+	// Stale is the tail of the open list's backing array beyond its length (open[len:cap]);
+	// a re-slice can expose it again, so it is part of the state.
+	Stale []SegmentationDescriptor
+	// InBlackout and BlackoutIdx are the breakaway bookkeeping.
+	InBlackout  bool
+	BlackoutIdx int
+	// Received is the duplicate-detection ring, one descriptor list per slot (nil = empty slot).
+	ReceivedPTS   []uint64
+	Received      [][]SegmentationDescriptor
+	ReceivedHead  int
+	ReceivedInUse []bool
+}
+
+// VerifDumpState returns the snapshot; ok is false when s was not created by NewState.
+func VerifDumpState(s State) (d VerifStateDump, ok bool) {
+	st, isState := s.(*state)
+	if !isState {
+		return d, false
+	}
+	d.Open = append([]SegmentationDescriptor(nil), st.open...)
+	d.Stale = append([]SegmentationDescriptor(nil), st.open[len(st.open):cap(st.open)]...)
+	d.InBlackout = st.inBlackout
+	d.BlackoutIdx = st.blackoutIdx
+	d.ReceivedHead = st.receivedHead
+	for _, e := range st.received {
+		if e == nil {
+			d.ReceivedInUse = append(d.ReceivedInUse, false)
+			d.ReceivedPTS = append(d.ReceivedPTS, 0)
+			d.Received = append(d.Received, nil)
+			continue
+		}
+		d.ReceivedInUse = append(d.ReceivedInUse, true)
+		d.ReceivedPTS = append(d.ReceivedPTS, uint64(e.pts))
+		d.Received = append(d.Received, append([]SegmentationDescriptor(nil), e.descs...))
+	}
+	return d, true
+}
